@@ -9,8 +9,10 @@
    predecessor ends.  All theorems hold for every arithmetic mode [fp] (IEEE rounding as the Rust
    code computes, or exact dyadic arithmetic), every resolution >= 1, every items_per_slot and
    value lists of any length. *)
-From BT Require Import Base.Util Base.Float Model.RTree Model.BBIFile Model.BigWigWrite Model.BBIRead
-  Proofs.BigWigQuery Proofs.ZoomLoop Proofs.ZoomInv Proofs.ZoomThms.
+From BT Require Import Base.Util Base.Float Generated.Consts Model.RTree Model.BBIFile Model.BigWigWrite Model.BBIRead
+  Proofs.RTreeAbs Proofs.RTreeBuild Proofs.RTreeCodec Proofs.RTreeLayout
+  Proofs.BigWigQuery Proofs.ZoomLoop Proofs.ZoomInv Proofs.ZoomThms Proofs.ZoomBwLevels Proofs.ZoomSections
+  Proofs.ZoomQuery Proofs.ZoomOld.
 Local Open Scope N_scope.
 
 (* the tiling loop of process_val_zoom, run with the fuel the model gives it, always returns a
@@ -70,6 +72,95 @@ Theorem C07_contributions : forall s e vals p, In p (contribs s e vals) <->
 Proof. exact contribs_spec. Qed.
 Print Assumptions C07_contributions.
 
+(* every section handed to encode_zoom_section holds between 1 and items_per_slot records (so its
+   `items_in_section[0]` cannot panic), and the bytes of the chromosome's sections at this level
+   are the records' encodings in order *)
+Theorem C07_sections_encoded : forall fp ips size chrom vals, 1 <= size -> 1 <= ips ->
+  exists st sds, zoom_chrom fp ips size chrom vals zstate0 = Ok st
+    /\ zoom_sections fp ips size chrom vals = Ok sds
+    /\ Forall (sec_wf ips) (zs_out st)
+    /\ length sds = length (zs_out st)
+    /\ data_bytes sds = flat_map (zrec_bytes fp) (concat (zs_out st)).
+Proof. exact zoom_sections_encoded. Qed.
+Print Assumptions C07_sections_encoded.
+
+(* levels are listed with strictly increasing resolution, all >= 1 ([inc_from 0 l]: 0 < l1 < l2 < ...),
+   and there are at most MAX_ZOOM_LEVELS of them (the directory has that many slots; /repo adc453b).
+   [build_levels] is the level list exactly as bw_write / bw_write_multipass build it
+   (bw_write_uses_build_levels, by reflexivity).  Single pass: the directory is the sub-sequence of
+   the normalised size list that write_zooms keeps. *)
+Theorem C07_levels_increasing : forall fp o outs data_size pos zooms bytes hdrs,
+  build_levels fp o outs (zoom_sizes_single o) = Ok zooms ->
+  write_zooms_loop o data_size pos zooms None 0 = Ok (bytes, hdrs) ->
+  inc_from 0 (map zh_res hdrs) /\ Nlen hdrs <= MAX_ZOOM_LEVELS.
+Proof. exact levels_increasing_single. Qed.
+Print Assumptions C07_levels_increasing.
+
+(* two passes: the directory is the selected size list itself (manual: normalised; automatic: a
+   contiguous piece of the ladder 10, 40, 160, ...), strictly increasing *)
+Theorem C07_levels_increasing_two_pass : forall fp o outs sum data_size pos zooms bytes hdrs,
+  build_levels fp o outs (zoom_sizes_two_pass o sum (total_zoom_counts outs) data_size) = Ok zooms ->
+  write_zooms_two_pass o pos zooms = Ok (bytes, hdrs) ->
+  map zh_res hdrs = zoom_sizes_two_pass o sum (total_zoom_counts outs) data_size
+  /\ inc_from 0 (map zh_res hdrs) /\ Nlen hdrs <= MAX_ZOOM_LEVELS.
+Proof. exact levels_increasing_two_pass. Qed.
+Print Assumptions C07_levels_increasing_two_pass.
+
+(* zoom range query, list level: the sections of one chromosome are well-formed sections
+   ([sec_ok]: one chromosome, first record starts first, last ends last), and over any list of such
+   sections (all chromosomes of a level) reading only the sections that pass the index test
+   ([zsec_hit] = `overlaps` on the span encode_zoom_section records) and filtering their records as
+   get_zoom_block_values does ([zkeep]) is filtering all records of the level *)
+Theorem C07_sections_ok : forall fp ips size chrom len vals st, 1 <= size -> wf_vals len vals ->
+  zoom_chrom fp ips size chrom vals zstate0 = Ok st -> Forall sec_ok (zs_out st).
+Proof. exact zoom_sections_ok. Qed.
+Print Assumptions C07_sections_ok.
+
+Theorem C07_zoom_query_sections : forall q s e (secs : list (list zrec)), Forall sec_ok secs ->
+  flat_map (filter (zkeep q s e)) (filter (zsec_hit q s e) secs) = filter (zkeep q s e) (concat secs).
+Proof. exact zoom_query_sections. Qed.
+Print Assumptions C07_zoom_query_sections.
+
+(* zoom range query down to the index bytes (with C05's search theorem): for the sections [rsecs]
+   of a level, encoded and laid out from [dpos], with the index written at [ipos] (fan-out b),
+   whatever surrounds the index in the file: the reader's search returns exactly the blocks of the
+   sections passing the test, in file order; the records of those blocks that pass the reader's
+   filter are all records of the level that pass it; and every record that intersects the
+   range [s,e) on chromosome q lies in one of the returned blocks. *)
+Theorem C07_zoom_query : forall fp (b ips dpos ipos : N) (rsecs : list (list zrec)) (sds : list sdata),
+  Forall sec_ok rsecs -> mapM (encode_zoom_section fp) rsecs = Ok sds ->
+  let secs := place dpos sds in
+  2 <= b <= 65535 -> secs <> [] -> sorted_starts (map sect_span secs) -> Forall sect_ok secs ->
+  exists bs levels, write_index b ips ipos secs = Ok (bs, levels)
+    /\ (ipos + Nlen bs <= U64 ->
+        forall pre post q s e fuel, Nlen pre = ipos -> (length bs <= fuel)%nat ->
+          let hit := filter (fun p => zsec_hit q s e (fst p)) (combine rsecs secs) in
+          search_bytes fuel false (pre ++ bs ++ post) (ipos + 48) q s e
+            = Ok (map (fun p => (s_off (snd p), s_size (snd p))) hit)
+          /\ flat_map (fun p => filter (zkeep q s e) (fst p)) hit = filter (zkeep q s e) (concat rsecs)
+          /\ forall z, In z (concat rsecs) -> z_chrom z = q -> s < z_end z -> z_start z < e ->
+               exists p, In p hit /\ In z (fst p)).
+Proof. exact zoom_query_complete. Qed.
+Print Assumptions C07_zoom_query.
+
+(* the loop as it was before the repair 9296bc5 violates the property on the design's witnesses *)
+Theorem C07_gap_refuted_before_fix :
+  exists R, achrom_old false true ieee 10 0
+              [{| v_start := 0; v_end := 5; v_bits := one |}; {| v_start := 20; v_end := 25; v_bits := one |}] [] None
+            = Ok (R, None)
+    /\ map (fun r => (z_start r, z_end r, cov r)) R = [(0, 5, 5); (10, 20, 10); (20, 25, 5)].
+Proof. exact D1a_old_loop_refuted. Qed.
+Print Assumptions C07_gap_refuted_before_fix.
+
+Theorem C07_minmax_refuted_before_fix :
+  exists R, achrom_old true false ieee 10 0
+              [{| v_start := 0; v_end := 5; v_bits := one |}; {| v_start := 10; v_end := 15; v_bits := hundred |}] [] None
+            = Ok (R, None)
+    /\ map (fun r => (z_start r, z_end r, cov r, su_items (z_sum r), bits_of_f64 (su_max (z_sum r)))) R
+       = [(0, 10, 5, 2, bits_of_f64 (f32_of_bits hundred)); (10, 15, 5, 1, bits_of_f64 (f32_of_bits hundred))].
+Proof. exact D1b_old_loop_refuted. Qed.
+Print Assumptions C07_minmax_refuted_before_fix.
+
 (* Non-vacuity: three values with a gap longer than the resolution after the second, the second
    starting where the first ends and crossing a record boundary; resolution 10, items_per_slot 2. *)
 Definition ex_vals : list value :=
@@ -86,4 +177,23 @@ Proof.
   split; [lia|]. split.
   - repeat (constructor; cbn; try lia).
   - eexists. split; [vm_compute; reflexivity|]. split; vm_compute; reflexivity.
+Qed.
+
+(* ... and the sections of that instance meet the hypotheses of C07_zoom_query (fan-out 2, data at
+   1000, index at 2000); the reader run on the index bytes returns the one block holding the
+   records that meet [11,13) *)
+Example C07_query_example_hyps :
+  exists st sds, zoom_chrom ieee 2 10 0 ex_vals zstate0 = Ok st /\ mapM (encode_zoom_section ieee) (zs_out st) = Ok sds /    let secs := place 1000 sds in
+    length secs = 2%nat /\ sorted_starts (map sect_span secs) /\ Forall sect_ok secs /    match write_index 2 2 2000 secs with
+    | Ok (bs, _) => search_bytes (length bs) false (repeatN 7 2000 ++ bs ++ [9]) 2048 0 11 13 = Ok [(1000, 64)]
+    | _ => False
+    end.
+Proof.
+  eexists. eexists. split; [vm_compute; reflexivity|]. split; [vm_compute; reflexivity|]. cbv zeta.
+  split; [vm_compute; reflexivity|]. split.
+  - vm_compute. repeat (constructor; [|repeat constructor; unfold start_le, ple; cbn; lia]). constructor.
+  - split.
+    + apply Forall_forall. intros s Hs. vm_compute in Hs.
+      repeat (destruct Hs as [<-|Hs]; [vm_compute; repeat split; reflexivity|]). destruct Hs.
+    + vm_compute. reflexivity.
 Qed.
